@@ -26,6 +26,8 @@ FIXES = [
  ('C03','side-by-side left line number saturates','side_by_side.rs: left line number overflowed at usize::MAX (panic with overflow checks)'),
  ('C03','single double quote','diff_header.rs: the path `"` made remove_surrounding_quotes slice [1..0] (panic)'),
  ('C03','ansi_preserving_slice does not cut','ansi/mod.rs: non-ASCII character among the prefix columns of a raw combined-diff line made ansi_preserving_slice start inside a character (panic)'),
+ ('C14','in plain diff -u output is not a file header','diff_header.rs: in plain diff -u output an added line starting with `++ ` (i.e. `+++ x`) inside a hunk printed a spurious file header'),
+ ('C01','that is not a submodule line is not dropped','submodule.rs: a first removed hunk line starting with `Subproject commit ` without a 40-digit hash was swallowed (not rendered at all)'),
 ]
 out = []
 for prop, pat, what in FIXES:
